@@ -76,7 +76,7 @@ class Prop(BaseProp):
             return wrapped % w, wrapped % core
         b = Builder(rng, p_doc=0.5, max_depth=3, mkparam=mkparam, name_forms=True, trigger=trig, p_trigger=0.3,
                     kinds=["function", "macro", "function", "macro", "cpa", "cpa", "block", "ct_add_test", "cpp_class",
-                           "plain", "set", "generic"], max_items=7, compound_generic=False)
+                           "plain", "set", "generic"], max_items=7, compound_generic=False, p_clone=0.06, clone_toggle_doc=True)
         # names the pattern also matches: prefix the generated name
         mod = b.module()
         for it in mod.walk():
@@ -153,7 +153,10 @@ class Prop(BaseProp):
                 cls = "params-differ"
             res.violate(f"{cls}:{e.kind}", f"heading {got!r}, expected {want!r}", wit)
         # documented implementing definitions: only the kwargs flag
+        impl_names = [it.impl.gt["name"] for it in mod.walk() if it.impl is not None]
         for im in doc_on_impl:
+            if impl_names.count(im.gt["name"]) > 1:
+                continue          # the enclosing command was repeated: two definitions share this name
             kw = own_body_has_cpa(im) or any(trig in l for l in im.doc)
             cands = [n for n in nodes if n.arg.startswith(im.gt["name"] + "(") and rstscan.kind_of(n) in ("function", "macro")]
             for n in cands:
